@@ -48,6 +48,8 @@ for pkg in $(grep '^+++ b/' "$PATCH" | sed 's#+++ b/\([a-z]*\)/.*#\1#' | sort -u
     internal|constraint) FAM="$FAM C01 C05 C08 C16";;
   esac
 done
+# SEED_FAMILY=own: first pass with the property's own check only (the family is run afterwards for what it misses)
+[[ "${SEED_FAMILY:-all}" == own ]] && FAM="$ID"
 FAM="$(echo $FAM | tr ' ' '\n' | awk '!s[$0]++' | tr '\n' ' ')"
 OUTDIR="$HERE/seeded/$ID-$OUTK"; mkdir -p "$OUTDIR"
 cp "$PATCH" "$OUTDIR/patch.diff"; cp "$DEMO" "$OUTDIR/demo_test.go"
